@@ -1095,6 +1095,11 @@ func runStress(ctx *core.Ctx, in c13Input) {
 		wg.Add(1)
 		go func() {
 			defer wg.Done()
+			defer func() {
+				if e := recover(); e != nil { // e.g. a nil map entry in fifo.Map.Unlock
+					bad.Add(1)
+				}
+			}()
 			for i := 0; i < in.Iters; i++ {
 				k := rr.Intn(in.Keys)
 				write := !rw || rr.Chance(1, 2)
